@@ -126,9 +126,10 @@ func toForm(c *Ctx, info *types.Info, e ast.Expr, param types.Object) *bform {
 			if cal.Pkg().Path() == "unicode" && len(t.Args) == 1 && isParam(t.Args[0]) {
 				return &bform{op: "atom", atom: "unicode." + cal.Name()}
 			}
-			if cal.Pkg().Path() == "strings" && cal.Name() == "ContainsRune" && len(t.Args) == 2 && isParam(t.Args[1]) {
-				if tv := info.Types[t.Args[0]]; tv.Value != nil && tv.Value.Kind() == constant.String {
-					return &bform{op: "atom", atom: "in:" + constant.StringVal(tv.Value)}
+			if (cal.Pkg().Path() == "strings" && cal.Name() == "ContainsRune" || cal.Pkg().Path() == "slices" && cal.Name() == "Contains") && len(t.Args) == 2 && isParam(t.Args[1]) {
+				// the table: a constant string, or a package level []rune("...") that is never assigned
+				if tv, ok := constEval(info, t.Args[0], nil); ok && tv.Kind() == constant.String {
+					return &bform{op: "atom", atom: "in:" + constant.StringVal(tv)}
 				}
 			}
 		}
@@ -153,6 +154,62 @@ func ruleR046(c *Ctx) {
 					if tv := info.Types[e]; tv.Value != nil && tv.Value.Kind() == constant.Int {
 						handled[tv.Value.ExactString()] = true
 					}
+				}
+			}
+			return true
+		})
+	}
+	// runes taken out by a table lookup in front of the matchers: if i := slices.Index(table, n); i >= 0 { ...; break }
+	if run != nil {
+		ast.Inspect(run.Body, func(n ast.Node) bool {
+			ifs, ok := n.(*ast.IfStmt)
+			if !ok || len(ifs.Body.List) == 0 {
+				return true
+			}
+			switch ifs.Body.List[len(ifs.Body.List)-1].(type) {
+			case *ast.BranchStmt, *ast.ReturnStmt:
+			default:
+				return true // falls through to the matchers
+			}
+			as, ok := ifs.Init.(*ast.AssignStmt)
+			if !ok || len(as.Lhs) != 1 || len(as.Rhs) != 1 {
+				return true
+			}
+			call, ok := ast.Unparen(as.Rhs[0]).(*ast.CallExpr)
+			if !ok || len(call.Args) != 2 {
+				return true
+			}
+			cal := Callee(info, call)
+			if cal == nil || cal.Pkg() == nil || !(cal.Pkg().Path() == "slices" && cal.Name() == "Index" || cal.Pkg().Path() == "strings" && cal.Name() == "IndexRune") {
+				return true
+			}
+			tbl, ok := constEval(info, call.Args[0], nil)
+			if !ok || tbl.Kind() != constant.String {
+				return true
+			}
+			be, ok := ast.Unparen(ifs.Cond).(*ast.BinaryExpr)
+			if !ok {
+				return true
+			}
+			if id, ok := ast.Unparen(be.X).(*ast.Ident); !ok || info.ObjectOf(id) != info.ObjectOf(as.Lhs[0].(*ast.Ident)) {
+				return true
+			}
+			bound, ok := constInt(info.Types[be.Y])
+			if !ok {
+				return true
+			}
+			for i, r := range []rune(constant.StringVal(tbl)) {
+				in := false
+				switch be.Op {
+				case token.GEQ:
+					in = i >= bound
+				case token.GTR:
+					in = i > bound
+				case token.NEQ:
+					in = bound == -1 || i != bound
+				}
+				if in {
+					handled[fmt.Sprint(int(r))] = true
 				}
 			}
 			return true
@@ -322,13 +379,18 @@ func ruleR046(c *Ctx) {
 							return false // every rune of the set is handled by the tokenizer switch
 						}
 					}
-					if strings.HasPrefix(a, "free:") {
-						// unknown sub conditions can not be relied on to hold
-						return false
-					}
 				}
 				return nEq <= 1
 			}
+			// conditions the rule cannot interpret ("free" atoms: last == 'e', a call it does not know) take both values;
+			// a witness that needs a particular value of one of them proves nothing - the check is then undecided
+			var freeAtoms []string
+			for _, a := range atoms {
+				if strings.HasPrefix(a, "free:") {
+					freeAtoms = append(freeAtoms, strings.TrimPrefix(a, "free:"))
+				}
+			}
+			witnessAllFree := true // the witness holds whatever the free atoms are
 			var witness []string
 			for mask := 0; mask < 1<<len(atoms) && witness == nil; mask++ {
 				v := map[string]bool{}
@@ -339,6 +401,19 @@ func ruleR046(c *Ctx) {
 					continue
 				}
 				if S.eval(v) && !C.eval(v) {
+					// does it hold for every value of the free atoms?
+					for fm := 0; fm < 1<<len(freeAtoms) && witnessAllFree; fm++ {
+						w := map[string]bool{}
+						for k, val := range v {
+							w[k] = val
+						}
+						for i, fa := range freeAtoms {
+							w["free:"+fa] = fm&(1<<i) != 0
+						}
+						if !(S.eval(w) && !C.eval(w)) {
+							witnessAllFree = false
+						}
+					}
 					for _, a := range atoms {
 						if strings.HasPrefix(a, "free:") {
 							continue
@@ -355,6 +430,8 @@ func ruleR046(c *Ctx) {
 				c.OK(key, fd.Pos(), "for every rune that reaches the matcher, the start test (%s) implies the continuation predicate", startText)
 			} else if !exact {
 				c.Undecided(key, fd.Pos(), "the literal is returned on several paths, the start test is not a conjunction of branch outcomes")
+			} else if !witnessAllFree {
+				c.Undecided(key, fd.Pos(), "whether the start test implies the continuation predicate depends on a condition the rule cannot interpret (%s)", strings.Join(freeAtoms, "; "))
 			} else {
 				c.Violation(key, fd.Pos(), "the start test %s accepts runes that the continuation predicate rejects (a rune with %s): the tokenizer then emits an empty token without consuming the rune and never terminates", startText, strings.Join(witness, ", "))
 			}
